@@ -35,7 +35,7 @@ RULE = ("labels: random number trees (leaf-only, balanced, degenerate chains, co
         "keys, str names against the PDF-1.1 Dests dictionary); text: random strings in both encodings incl. surrogate "
         "pairs, every PDFDocEncoding byte; every labels / outline / names case is also observed repeatedly on ONE "
         "PDFDocument (second pass, interleaved generators, reverse order), with nested page trees, page selection, "
-        "indirect scalar values and caching=False; formatters: roman exhaustively 1..3999, alpha 1..N.  A case is non-trivial "
+        "indirect scalar values and caching=False; formatters: roman exhaustively 1..3999 and sampled up to 200000, alpha 1..N.  A case is non-trivial "
         "when it is a distinct input with >= 2 ranges / >= 2 outline items / a tree with Kids / a non-ASCII string.")
 TRUSTED_BASE = [
     "tools/translate/gen_c17.py (Python ast -> Lean) for ROMAN_ONES, ROMAN_FIVES, PDFDocEncoding - each translated "
@@ -52,7 +52,7 @@ ASSUMPTIONS = [
     "below Python's recursion limit (generated depth <= 60)",
     "domain of the property oracle = conforming structures: keys strictly ascending in order, first page-label key 0, "
     "St >= 1, every non-root node carries Limits bounding its keys with siblings separated, destinations are non-empty "
-    "arrays/dictionaries, roman values < 4000, text strings use defined PDFDocEncoding codes or well-formed UTF-16BE",
+    "arrays/dictionaries, roman values >= 1, text strings use defined PDFDocEncoding codes or well-formed UTF-16BE",
     "PDFDocEncoding code 0x16 maps to U+0017 as printed in ISO 32000-1 Table D.2",
     "settings.STRICT False (default) for everything; label extraction additionally under settings.STRICT = True",
 ]
@@ -60,17 +60,19 @@ STATEMENT_STATUS = {
     "pdfdoc_table_total": "proved (regenerated table has 256 entries)",
     "pdfdoc_table_spec": "proved: every defined code of ISO 32000-1 Table D.2 (kernel sweep over 256 bytes)",
     "decode_text_spec": "proved for all strings in the domain (well-formed UTF-16BE with BOM, defined PDFDocEncoding codes)",
-    "roman_correct": "proved for all 0 < n < 4000 (kernel sweep against the regenerated ROMAN_* tables)",
+    "roman_correct_all": "proved for EVERY n >= 1 (low three digits: kernel sweep against the regenerated ROMAN_* tables; "
+                         "thousands: any number of m, 4000 -> mmmm) - full statement since the round-6 fix",
+    "roman_correct": "proved (the n < 4000 instance of roman_correct_all, kept for its users)",
     "roman_value": "proved (sanity of the specification: numeral reads back as n)",
-    "roman_outside": "proved (AssertionError outside 0 < n < 4000 is modelled)",
+    "roman_outside": "proved (AssertionError for n <= 0 is modelled; no upper bound since the round-6 fix)",
     "alpha_statement": "full statement for styles A/a; proved FALSE on the pinned code: alpha_cex (28 -> 'ab', ISO 'bb'); "
                        "open finding alpha-repeat",
     "alpha_partial": "partial: values 1..26 only",
     "roman_body_translated": "proved for every state: one pass of the TRANSLATED while body of format_int_roman = the hand "
                              "model's step (IndexError included)",
     "roman_translated": "proved for every integer: format_int_roman assembled from the translated assert/test/body/tail = hand model",
-    "roman_translated_correct": "proved for all 0 < n < 4000: the translated code writes the subtractive-notation numeral",
-    "roman_translated_outside": "proved: the translated assert raises outside 0 < n < 4000",
+    "roman_translated_correct": "proved for EVERY n >= 1: the translated code writes the subtractive-notation numeral",
+    "roman_translated_outside": "proved: the translated assert raises for n <= 0",
     "alpha_body_translated": "proved for every positive value and partial result: one pass of the TRANSLATED while body of "
                              "format_int_alpha (never IndexError)",
     "alpha_translated": "proved for every integer: format_int_alpha assembled from the translated pieces = hand model",
@@ -175,13 +177,13 @@ _ROMAN = [(1000, "m"), (900, "cm"), (500, "d"), (400, "cd"), (100, "c"), (90, "x
 
 
 def spec_roman(n: int) -> Optional[str]:
-    if not 0 < n < 4000:
+    """Greedy subtractive notation for every n >= 1 (no numeral above m: 4000 -> mmmm)."""
+    if n < 1:
         return None
     out = []
     for v, s in _ROMAN:
-        while n >= v:
-            out.append(s)
-            n -= v
+        out.append(s * (n // v))
+        n %= v
     return "".join(out)
 
 
@@ -1015,9 +1017,9 @@ def gen_label_dict(rng, wild: bool) -> Dict[str, Any]:
     elif r < 0.5:
         ld["St"] = 1
     else:
-        top = {"R": 3990, "r": 3990}.get(s, 100000)
+        top = {"R": 30000, "r": 30000}.get(s, 100000)
         ld["St"] = rng.choice([2, 3, 4, 5, 9, 14, 25, 26, 27, 28, 40, 52, 53, 99, 400, 676, 702, 703, 1987, 3888,
-                               rng.randint(1, 60), rng.randint(1, top)])
+                               3998, 4000, 4999, rng.randint(1, 60), rng.randint(1, top)])
         if ld["St"] > top:
             ld["St"] = rng.randint(1, top)
     if wild and rng.random() < 0.2:
@@ -1817,14 +1819,25 @@ def run_formatters(ctx: C.Ctx, batch: Batch) -> None:
     if bad:
         ctx.fail(C.Failure("format_int_roman differs from the subtractive-notation numeral",
                            {"kind": "roman", "value": bad[0]}, bad[1], bad[2], {"component": "roman"}))
-    for n in (0, -1, 4000, 4001, 9000, 10000):
+    # past 3999 (since the round-6 fix part of the domain: thousands = repeated m) and the assertion
+    big = list(range(4000, 4000 + ctx.n(300, 3000))) + [4999, 5000, 9999, 10000, 12345, 39999, 40000] \
+        + [ctx.rng.randint(4000, 200000) for _ in range(ctx.n(200, 2000))]
+    for n in big + [0, -1, -4000]:
         try:
-            got = cps(U.format_int_roman(n))
+            got = U.format_int_roman(n)
         except Exception as e:  # noqa: BLE001
             got = "E:" + type(e).__name__
-        ctx.branch("roman:outside:" + got[:20])
-        batch.add("roman %d" % n, "roman", {"kind": "roman", "value": n}, got, "model")
-        batch.add("gen.roman %d" % n, "gen.roman", {"kind": "roman", "value": n}, got, "model")
+        exp = spec_roman(n)
+        ctx.case(("roman", n), True, branch="roman>=4000" if n >= 4000 else "roman:outside:" + got[:20])
+        shown = cps(got) if not got.startswith("E:") else got
+        batch.add("roman %d" % n, "roman", {"kind": "roman", "value": n}, shown, "model")
+        batch.add("gen.roman %d" % n, "gen.roman", {"kind": "roman", "value": n}, shown, "model")
+        if exp is not None:
+            batch.add("spec.roman %d" % n, "spec.roman", {"kind": "roman", "value": n}, cps(exp), "spec")
+            if got != exp and bad is None:
+                bad = (n, exp, got)
+                ctx.fail(C.Failure("format_int_roman differs from the subtractive-notation numeral",
+                                   {"kind": "roman", "value": n}, exp, got, {"component": "roman"}))
     # alpha
     top = ctx.n(3000, 60000)
     first_bad = None
